@@ -5,6 +5,7 @@ mod common;
 mod c17;
 mod c10;
 mod c07;
+mod c20;
 
 use common::*;
 use std::path::PathBuf;
@@ -30,6 +31,7 @@ fn main() {
         "c17" => c17::run(&mut out, tier, seed, replay),
         "c10" => c10::run(&mut out, tier, seed, replay),
         "c07" => c07::run(&mut out, tier, seed, replay),
+        "c20" => c20::run(&mut out, tier, seed, replay),
         _ => {
             eprintln!("unknown property {}", prop);
             std::process::exit(2);
